@@ -148,3 +148,43 @@ def all_vars(v):
                 out |= x.vars()
         return out
     return set()
+
+
+def eval_at(v, mapping):
+    """value of a guarded value / polynomial at a concrete point (mapping: ('v',name) -> Poly.const); None when a
+    condition or leaf does not become a number there"""
+    if isinstance(v, ITE):
+        c = cond_at(v.cond, mapping)
+        if c is None:
+            return None
+        return eval_at(v.a if c else v.b, mapping)
+    if isinstance(v, Poly):
+        try:
+            r = v.subst(mapping)
+        except (ValueError, KeyError, ZeroDivisionError):
+            return None
+        return float(r.const_value()) if r.is_const() else None
+    if isinstance(v, bool):
+        return 1.0 if v else 0.0
+    if isinstance(v, (int, float)):
+        return float(v)
+    return None
+
+
+def cond_at(c, mapping):
+    if not isinstance(c, Cond):
+        return None
+    if c.kind == 'cmp':
+        a, b = eval_at(c.a, mapping), eval_at(c.b, mapping)
+        if a is None or b is None:
+            return None
+        return {'<': a < b, '<=': a <= b, '>': a > b, '>=': a >= b, '==': a == b, '!=': a != b}[c.op]
+    if c.kind == 'not':
+        r = cond_at(c.a, mapping)
+        return None if r is None else (not r)
+    if c.kind in ('and', 'or'):
+        x, y = cond_at(c.a, mapping), cond_at(c.b, mapping)
+        if x is None or y is None:
+            return None
+        return (x and y) if c.kind == 'and' else (x or y)
+    return None
